@@ -149,8 +149,48 @@ def chains(rep: Report, rng) -> None:
             rep.violation(f"a mixed operator chain of {k} terms differs from the constructors", {"terms": k})
 
 
+def augmented(rep: Report, rng) -> None:
+    """`s op= c` is `s = s op c`: the same constructor call, whatever s already is"""
+    g = gen.Gen(rng, names=("x", "y", "z"))
+    for _ in range(40):
+        a, b, c = g.expr(rng.randint(0, 2)), g.expr(rng.randint(0, 1)), g.expr(rng.randint(0, 1))
+        for opname, K, start in (("+=", X.Add, lambda: a + b), ("*=", X.Multiply, lambda: a * b), ("-=", X.Minus, lambda: a - b),
+                                 ("/=", X.Divide, lambda: a / b), ("**=", X.Power, lambda: a ** b),
+                                 ("+= on a product", X.Add, lambda: a * b), ("*= on a sum", X.Multiply, lambda: a + b),
+                                 ("+= on Add(...)", X.Add, lambda: X.Add(a, b, c)), ("*= on Multiply(...)", X.Multiply, lambda: X.Multiply(a, b, c))):
+            rep.evaluations += 1
+            def go():
+                s = start()
+                s0 = s
+                if opname.startswith("+="):
+                    s += c
+                elif opname.startswith("*="):
+                    s *= c
+                elif opname == "-=":
+                    s -= c
+                elif opname == "/=":
+                    s /= c
+                else:
+                    s **= c
+                return s, K(s0, c), s0
+            got = call(go)
+            rep.count("augmented-assignment", opname)
+            if got[0] != "ok" or not (got[1][0] == got[1][1]) or repr(got[1][0]) != repr(got[1][1]):
+                rep.violation(f"s {opname} c does not build {K.__name__}(s, c): {repr(got[1][0])[:200] if got[0] == 'ok' else got}", {"operator": opname})
+        k = call(lambda: _iop(a, 3))
+        if k[0] != "ok" or repr(k[1]) != repr(X.NthPower(a, 3)):
+            rep.violation(f"s **= 3 does not build NthPower(s, 3): {k!r}"[:300], {"operator": "**= 3"})
+
+
+def _iop(a, k):
+    s = a
+    s **= k
+    return s
+
+
 def run(rep: Report, rng, tier: str, known: dict, search: bool = False) -> None:
     chains(rep, rng)
+    augmented(rep, rng)
     check_cases(gen_cases(rng, tier), rep, known)
 
 
